@@ -13,6 +13,7 @@ from pbt.ref import c09_boolean as rb
 PROPERTY_ID = "C09"
 LEVEL = "translation_validation"
 MAX_ATOMS = 14
+MAX_NODES = 150
 RULE = ("Instances = (generated program, propagate_evidence flag): programs from pbt.gen.programs.programs() (default "
         "shape, and max_preds=3 / max_preds=2 so that self and mutual recursion is frequent), grounded by the real "
         "engine with LogicFormula.create_from(PrologString(src), propagate_evidence=flag); then "
@@ -33,7 +34,8 @@ ASSUMPTIONS = [
     "with propagate_evidence=True cycle breaking substitutes propagated evidence values into the query "
     "formulas (documented behaviour of the option), so query tables are required to agree on the assignments "
     "where the evidence holds under least-model semantics; evidence nodes are compared on all assignments",
-    "instances with more than 14 atoms are skipped (inconclusive 'oversize')",
+    "instances with more than 14 atoms or more than 150 formula nodes are skipped before the transformations run "
+    "(inconclusive 'oversize'): they cannot be validated exhaustively and cycle breaking is exponential on large SCCs",
 ]
 
 
@@ -124,6 +126,12 @@ def check(case):
         return Outcome(features=sorted(feats), classes=[lf])
     sample = {"program": src, "propagate_evidence": propagate}
     n_cmp = 0
+    # size guard BEFORE the transformations: cycle breaking is exponential on large SCCs, and instances with more
+    # than MAX_ATOMS atoms cannot be validated exhaustively anyway
+    n_lf_atoms = sum(1 for _, _, t in lf if t == "atom")
+    if n_lf_atoms > MAX_ATOMS or len(lf) > MAX_NODES:
+        feats.add("atoms:15+" if n_lf_atoms > MAX_ATOMS else "nodes:%d+" % MAX_NODES)
+        return Outcome(inconclusive="oversize", features=sorted(feats), classes=["instance"])
 
     def fail(kind, detail, sig=None, nontrivial=True):
         return Outcome(nontrivial=nontrivial, features=sorted(feats), classes=["instance"], sample=sample,
@@ -396,5 +404,5 @@ KNOWN_CLASSES = {}
 
 SUBCHECKS = [
     SubCheck("pipeline", check, strategy=_strategy, budget={"quick": 2400, "thorough": 60000},
-             timeout={"quick": 10, "thorough": 30}, render=render),
+             timeout={"quick": 5, "thorough": 20}, render=render),
 ]
